@@ -24,18 +24,19 @@ theorem fromHex_upper (bs : List Nat) (h : ∀ b ∈ bs, b < 256) : fromHex bs =
 /-! ### base64 tables -/
 set_option maxRecDepth 4000 in
 theorem b64_table_len : base64de.length = 123 := by decide
-theorem b64_guard_alpha : ∀ i, i < 64 → ¬ (base64GuardOperand (Spec.b64Char i) > base64GuardLimit) := by decide +kernel
+theorem b64_guard_alpha : ∀ i, i < 64 → base64GuardRejects (Spec.b64Char i) = false := by decide +kernel
 theorem b64_table_alpha : ∀ i, i < 64 → rdTable base64de (base64Index (Spec.b64Char i)) = .ok i := by decide +kernel
-theorem b64_guard_pad : ¬ (base64GuardOperand 61 > base64GuardLimit) := by decide
+theorem b64_guard_pad : base64GuardRejects 61 = false := by decide
 theorem b64_table_pad : rdTable base64de (base64Index 61) = .ok base64Invalid := by decide +kernel
 theorem b64_pad_eq : base64Pad = 61 := rfl
 theorem b64_invalid_eq : base64Invalid = 255 := rfl
 theorem b64_mask_eq : base64LenMask = 3 := rfl
 
 /-- whatever byte passes the guard indexes inside the table (this is D26: false for the signed comparison) -/
-theorem b64_index_in_table (b : Nat) (h : ¬ (base64GuardOperand b > base64GuardLimit)) :
+theorem b64_index_in_table (b : Nat) (h : base64GuardRejects b = false) :
     ∃ c, rdTable base64de (base64Index b) = .ok c := by
-  unfold base64GuardOperand base64GuardLimit at h
+  unfold base64GuardRejects at h
+  rw [decide_eq_false_iff_not] at h
   unfold base64Index rdTable
   have hb : b < base64de.length := by rw [b64_table_len]; omega
   rw [if_pos (by omega)]
@@ -67,12 +68,12 @@ theorem and3 (i : Nat) : i &&& 3 = i % 4 := Nat.and_two_pow_sub_one_eq_mod i 2
 theorem b64Loop_alpha (v : Nat) (rest : List Nat) (i j : Nat) (out : List Nat) (hv : v < 64) :
     b64Loop (Spec.b64Char v :: rest) i j out =
       (b64Switch i v j out).bind fun r => b64Loop rest (i + 1) r.1 r.2 := by
-  rw [b64Loop, if_neg (b64_guard_alpha v hv), b64_table_alpha v hv, Res.bind_ok,
+  rw [b64Loop, b64_guard_alpha v hv, if_neg Bool.false_ne_true, b64_table_alpha v hv, Res.bind_ok,
     if_neg (by rw [b64_invalid_eq]; omega)]
 
 theorem b64Loop_pad (rest : List Nat) (i j : Nat) (out : List Nat) :
     b64Loop (61 :: rest) i j out = .ok (some (j, out)) := by
-  rw [b64Loop, if_neg b64_guard_pad, b64_table_pad, Res.bind_ok, if_pos rfl, if_pos b64_pad_eq.symm]
+  rw [b64Loop, b64_guard_pad, if_neg Bool.false_ne_true, b64_table_pad, Res.bind_ok, if_pos rfl, if_pos b64_pad_eq.symm]
 
 theorem sw0 (i c j : Nat) (out : List Nat) (hi : i % 4 = 0) (hj : j < out.length) :
     b64Switch i c j out = .ok (j, out.set j ((c <<< 2) &&& 0xFF)) := by
@@ -244,10 +245,10 @@ theorem b64Loop_ok (rest : List Nat) : ∀ (i j : Nat) (out : List Nat), i + res
   | cons b rest ih =>
     intro i j out hl hn hj
     rw [b64Loop]
-    by_cases hg : base64GuardOperand b > base64GuardLimit
+    by_cases hg : base64GuardRejects b = true
     · exact ⟨_, by rw [if_pos hg]⟩
     · rw [if_neg hg]
-      obtain ⟨c, hc⟩ := b64_index_in_table b hg
+      obtain ⟨c, hc⟩ := b64_index_in_table b (by simpa using hg)
       rw [hc, Res.bind_ok]
       by_cases hinv : c = base64Invalid
       · rw [if_pos hinv]
